@@ -52,6 +52,8 @@ pub fn link_family() -> Vec<(String, AProg)> {
     // scale: 6 externals used 8 times each (48 relocation entries, 6 labels bound by one link) and the file that defines them
     v.push(("use EXT0-5 x8".into(), { let mut p: AProg = (0..6).map(|e| st(Nuc::External(format!("Ext{e}")))).collect(); let mut body = vec![]; for u in 0..8 { for e in 0..6 { body.push(st(fl(&format!("{}{e}", if u % 2 == 0 { "EXT" } else { "ext" })))); } } p.extend(block(0x9000, body)); p }));
     v.push(("def EXT0-5".into(), block(0x9100, (0..6).map(|e| lst(&format!("EXT{e}"), f(0x1300 + e))).collect())));
+    // definers without a single word: the label sits on the .end of an empty block (the file has labels but no blocks)
+    for (l, o) in [("A", 0x4000u16), ("A", 0x3000), ("B", 0x3002), ("EXT3", 0x9103)] { v.push((format!("def {l}@x{o:04X}+0 (label on .end of an empty block)"), { let mut p = block(o, vec![]); p.last_mut().unwrap().labels = vec![l.to_string()]; p })); }
     v.push(("high block".into(), { let mut p = vec![st(Nuc::External("A".into()))]; p.extend(block(0xFDFE, vec![lst("HI", fl("HI")), st(fl("A"))])); p }));
     v
 }
@@ -116,6 +118,15 @@ pub fn obj_family(thorough: bool) -> Vec<ObjCase> {
         if d.contains("blocks") || d.contains("labelled statements") { if let Some((o, _)) = assemble_prog(p, true, &gap16) { v.push(ObjCase { desc: format!("big {d} [debug, 16 comment lines before every statement]"), obj: o }); } }
         if d.contains("externals") || d.contains("stringz of 5000") { if let Some((o, _)) = assemble_prog(p, false, &Style::plain()) { v.push(ObjCase { desc: format!("big {d} [no debug]"), obj: o }); } }
     }
+    // sources (kept in the debug symbols) that consist almost entirely of multi-byte characters, shifted by 0..3 ASCII bytes, so that every
+    // byte offset of a long text falls inside a 2-, a 3- and a 4-byte character in one of them (any fixed-size buffering of the text cuts one);
+    // the same characters as a long label name and in a long string literal
+    for (ch, w) in [('é', 2usize), ('€', 3), ('𝄞', 4)] { for shift in 0..w { for total in [5_000usize, 70_000] {
+        let body: String = std::iter::repeat(ch).take(total / w).collect();
+        let src = format!("{};{body}\n.orig x3000\nL{} .fill 7 ;{body}\nS .stringz \"{}\"\n.end ;{body}", "a".repeat(shift), if ch == '𝄞' { String::new() } else { std::iter::repeat(ch).take(40).collect::<String>() }, std::iter::repeat(ch).take(300 + shift).collect::<String>());
+        let src = if shift == 0 { src } else { format!(";{}", &src) };
+        if let Ok(ast) = parse_ast(&src) { if let Ok(o) = assemble_debug(ast, &src) { v.push(ObjCase { desc: format!("dense {w}-byte characters, shifted by {shift}, {total} bytes of comment [debug]"), obj: o }); } }
+    } } }
     v.push(ObjCase { desc: "ObjectFile::empty()".into(), obj: ObjectFile::empty() });
     v
 }
